@@ -271,6 +271,10 @@ void backend () {
     {
       /* Has to be cleared if we jumped out of process_user_command() */
       current_interactive = 0;
+      /* Nobody is the command giver between tasks. What the last task left here may be
+       * an object that remove_destructed_objects() below frees; driver applies that do
+       * not set a command giver (and call_out(), which records it) would still see it. */
+      command_giver = 0;
       eval_cost = CONFIG_INT (__MAX_EVAL_COST__);
 
       if (g_proceeding_shutdown)
